@@ -36,10 +36,10 @@ func (f c08Fault) String() string {
 }
 
 type c08Plan struct {
-	Workload *crSpec     `json:"workload"`
-	Phase    string      `json:"phase"` // run | reopen
+	Workload *crSpec    `json:"workload"`
+	Phase    string     `json:"phase"` // run | reopen
 	Faults   []c08Fault `json:"faults"`
-	Note     string      `json:"options_note"`
+	Note     string     `json:"options_note"`
 }
 
 // crSigOnce reports one violation per signature and counts the rest.
@@ -69,7 +69,7 @@ type c08Injector struct {
 	total   map[string]int // per kind/type over the whole run
 	faults  []c08Fault
 	fired   []stor.Op
-	lastHit int // index into faults of the last injected fault, -1 none
+	lastHit int                 // index into faults of the last injected fault, -1 none
 	ctx     string              // client call in progress (set by the runner)
 	ctxOf   map[string][]string // per kind/type: the call context of the 1st, 2nd, ... armed operation
 }
@@ -467,6 +467,48 @@ func (fr *c08Run) run() {
 		if strings.HasPrefix(fr.outcome, "violation") {
 			break
 		}
+		// the client closes and reopens twice in the run (the faults stay armed; a failing Open is retried without)
+		if b.ID == len(fr.bs)/3 || b.ID == 2*len(fr.bs)/3 {
+			err, h := fr.call("Close", db.Close)
+			if h {
+				fr.hang(db, "Close", "mid-run")
+				hungRun = true
+				break
+			}
+			if err != nil {
+				failed("Close", b.ID, err)
+			}
+			var ndb *leveldb.DB
+			err, h = fr.call("Open", func() (err error) { ndb, err = leveldb.Open(st, fr.o); return })
+			if h {
+				fr.violate("fault:reopen:open:hang", "Open under faults did not return within 20 s:\n"+blockedSummary(crGoroutines()), nil)
+				return
+			}
+			if err != nil {
+				failed("Open", b.ID, err)
+				st.ForceUnlock()
+				atomic.StoreInt32(&fr.inj.armed, 0)
+				err, h = fr.call("Open", func() (err error) { ndb, err = leveldb.Open(st, fr.o); return })
+				if fr.plan.Phase == "run" {
+					atomic.StoreInt32(&fr.inj.armed, 1)
+				}
+				if h || err != nil {
+					kind, typ := fr.lastFault()
+					fr.firedAny = true
+					fr.violate(fr.reopenSig(err, kind, typ), fmt.Sprintf("mid-run: after Close, Open failed under faults and then also without faults: %v hung=%v (acknowledged batches hidden: %s)", err, h, crIDRanges(fr.acked())), map[string]interface{}{"image": crImageHex(st.Clone())})
+					c.Res.Count("outcome", "reopen-error")
+					return
+				}
+			}
+			db = ndb
+			if fr.readCheck(db, fmt.Sprintf("after mid-run reopen at batch %d", b.ID), true) {
+				hungRun = true
+				break
+			}
+			if strings.HasPrefix(fr.outcome, "violation") {
+				break
+			}
+		}
 	}
 	closedOK := false
 	if !hungRun {
@@ -531,38 +573,7 @@ func (fr *c08Run) run() {
 	}
 	if err != nil {
 		kind, typ := fr.lastFault()
-		sig := fmt.Sprintf("fault:%s/%s:reopen-error:%s", kind, typ, crErrClass(err))
-		commitFailed := false
-		for _, f := range fr.failedCalls {
-			if strings.HasPrefix(f, "Transaction.Commit") {
-				commitFailed = true
-			}
-		}
-		manifestFault, setmetaEffect := "", false
-		for i, op := range fr.inj.firedOps() {
-			_ = i
-			if op.Fd.Type == storage.TypeManifest && (op.Kind == stor.OpSync || op.Kind == stor.OpWrite) && manifestFault != "sync" {
-				manifestFault = string(op.Kind)
-			}
-			if op.Kind == stor.OpSetMeta {
-				for _, f := range fr.plan.Faults {
-					if f.Kind == stor.OpSetMeta && f.Mode == "with-effect" {
-						setmetaEffect = true
-					}
-				}
-			}
-		}
-		switch {
-		case crErrClass(err) == "missing-files" && manifestFault != "":
-			// the edit was abandoned in memory but its record reached the manifest; the caller then removed the tables
-			then := "revert"
-			if commitFailed {
-				then = "discard"
-			}
-			sig = "session.commit:manifest-" + manifestFault + "-failed-then-" + then + ":open-missing-files"
-		case setmetaEffect && strings.Contains(err.Error(), "entry point"):
-			sig = "newManifest:setmeta-failed-with-effect-then-manifest-removed:open-entry-point-missing"
-		}
+		sig := fr.reopenSig(err, kind, typ)
 		fr.violate(sig, fmt.Sprintf("reopen of a copy of the files without faults failed: %v (acknowledged batches hidden: %s)", err, crIDRanges(fr.acked())), map[string]interface{}{"image": crImageHex(img)})
 		c.Res.Count("outcome", "reopen-error")
 		return
@@ -572,6 +583,46 @@ func (fr *c08Run) run() {
 		fr.violate("fault:reopen:put", fmt.Sprintf("Put after fault-free reopen: %v hung=%v", err, hung), nil)
 	}
 	crCall(crWdTimeout, db3.Close)
+}
+
+// reopenSig names a failed fault-free reopen: known defect families get their fixed names.
+func (fr *c08Run) reopenSig(err error, kind, typ string) string {
+	if err == nil {
+		return "fault:reopen:hang"
+	}
+	sig := fmt.Sprintf("fault:%s/%s:reopen-error:%s", kind, typ, crErrClass(err))
+	commitFailed := false
+	for _, f := range fr.failedCalls {
+		if strings.HasPrefix(f, "Transaction.Commit") {
+			commitFailed = true
+		}
+	}
+	manifestFault, setmetaEffect := "", false
+	for i, op := range fr.inj.firedOps() {
+		_ = i
+		if op.Fd.Type == storage.TypeManifest && (op.Kind == stor.OpSync || op.Kind == stor.OpWrite) && manifestFault != "sync" {
+			manifestFault = string(op.Kind)
+		}
+		if op.Kind == stor.OpSetMeta {
+			for _, f := range fr.plan.Faults {
+				if f.Kind == stor.OpSetMeta && f.Mode == "with-effect" {
+					setmetaEffect = true
+				}
+			}
+		}
+	}
+	switch {
+	case crErrClass(err) == "missing-files" && manifestFault != "":
+		// the edit was abandoned in memory but its record reached the manifest; the caller then removed the tables
+		then := "revert"
+		if commitFailed {
+			then = "discard"
+		}
+		sig = "session.commit:manifest-" + manifestFault + "-failed-then-" + then + ":open-missing-files"
+	case setmetaEffect && strings.Contains(err.Error(), "entry point"):
+		sig = "newManifest:setmeta-failed-with-effect-then-manifest-removed:open-entry-point-missing"
+	}
+	return sig
 }
 
 // ---- enumeration ---------------------------------------------------------------------------------
@@ -597,7 +648,7 @@ func c08Spec(r *rng.R, i int) *crSpec {
 }
 
 func runC08(c *Ctx) {
-	c.Res.Rule = "per workload (80 marker batches incl. large-batch writes, explicit transactions - discarded after a failed Commit, as documented - and CompactRange; tiny buffers; background work settles between client calls so that operation order repeats): a fault-free run records every storage operation as (kind x file type x client call in progress), then the workload is re-run once per fault plan: the k-th operation of a (kind, type) fails, without effect or with effect (bytes written / file synced / created / removed / CURRENT set although an error is returned), singly, as a burst of 2-5 consecutive failures, or as a sampled pair; phase run = armed after Open, phase reopen = armed during a reopen of the populated DB. Quick takes the first and two random positions of every (kind, type, call) class, thorough all positions. The DB is used on after the fault (writes, transactions, CompactRange, scan + Gets every 10 batches), closed, and a Clone is reopened without faults. Oracles at every read and after the reopen: contents = exactly the batches whose markers are present, applied in issue order; present only batches that were issued; every batch whose call returned nil present (in the run and after the reopen); reads may fail but never return a value that disagrees; every call under a 20 s watchdog. One evaluation = one faulted run; non-trivial = at least one fault fired; distinct by fault plan. Part 2 (damaged data, default checksum options): one byte flipped in a table data block or a journal chunk of a settled closed DB: every Get returns the right value or an error, scans return only right pairs (all of them when no error is reported); journal damage may drop whole batches only. " + c08OptNote
+	c.Res.Rule = "per workload (80 marker batches incl. large-batch writes, explicit transactions - discarded after a failed Commit, as documented - and CompactRange; tiny buffers; background work settles between client calls so that operation order repeats): a fault-free run records every storage operation as (kind x file type x client call in progress), then the workload is re-run once per fault plan: the k-th operation of a (kind, type) fails, without effect or with effect (bytes written / file synced / created / removed / CURRENT set although an error is returned), singly, as a burst of 2-5 consecutive failures, or as a sampled pair; phase run = armed after Open, phase reopen = armed during a reopen of the populated DB. Quick takes the first, the last and a random position of every (kind, type, call) class, thorough all positions. The DB is used on after the fault (writes, transactions, CompactRange, scan + Gets every 10 batches), closed, and a Clone is reopened without faults. Oracles at every read and after the reopen: contents = exactly the batches whose markers are present, applied in issue order; present only batches that were issued; every batch whose call returned nil present (in the run and after the reopen); reads may fail but never return a value that disagrees; every call under a 20 s watchdog. One evaluation = one faulted run; non-trivial = at least one fault fired; distinct by fault plan. Part 2 (damaged data, default checksum options): one byte flipped in a table data block or a journal chunk of a settled closed DB: every Get returns the right value or an error, scans return only right pairs (all of them when no error is reported); journal damage may drop whole batches only. " + c08OptNote
 	once := &crSigOnce{}
 	nwl := c.Scale(3, 4)
 	type job struct {
@@ -649,14 +700,8 @@ func runC08(c *Ctx) {
 						if c.Thorough || len(pos) <= 3 {
 							ks = pos
 						} else {
-							a, b := 1+r.Intn(len(pos)-1), 1+r.Intn(len(pos)-1)
-							if a > b {
-								a, b = b, a
-							}
-							ks = []int{pos[0], pos[a]}
-							if b != a {
-								ks = append(ks, pos[b])
-							}
+							a := 1 + r.Intn(len(pos)-2)
+							ks = []int{pos[0], pos[a], pos[len(pos)-1]}
 						}
 						modes := []string{"no-effect"}
 						if c08HasEffect(kind) {
@@ -894,7 +939,9 @@ func c08DamageOne(c *Ctx, once *crSigOnce, r *rng.R, i int) {
 	}
 	c.Res.Count("damage", dc.Target)
 	nontrivial := true
-	defer func() { c.Res.Eval(fmt.Sprintf("damage/%d/%s/%s/%d", spec.Seed, dc.Target, dc.File, dc.Offset), nontrivial) }()
+	defer func() {
+		c.Res.Eval(fmt.Sprintf("damage/%d/%s/%s/%d", spec.Seed, dc.Target, dc.File, dc.Offset), nontrivial)
+	}()
 	var db2 *leveldb.DB
 	err, hung := crCall(crWdTimeout, func() (err error) { db2, err = leveldb.Open(st, o); return })
 	if hung {
